@@ -13,7 +13,7 @@ import types
 from typing import Any, List, Optional
 
 ROOTS = ["coro", "coro", "coro", "agen", "gen"]
-CORO_LINKS = ["await_coro", "await_gencoro", "await_wrapper", "await_gen", "agen_anext", "agen_asend", "agen_athrow",
+CORO_LINKS = ["await_coro", "await_gencoro", "await_wrapper", "await_gen", "agen_anext", "agen_asend", "agen_asend_agen", "agen_athrow",
               "agen_aclose", "async_for"]
 GEN_LINKS = ["yield_from"]
 ENDS = ["trap", "future", "future_falsy", "future_len0"]
@@ -192,6 +192,26 @@ def build(spec: dict) -> Chain:
                 ch.keep.append(a)
                 await a.asend(None)
                 await a.asend(5)
+                await tail()
+            return ch.reg(f())
+        if k == "agen_asend_agen":
+            # the value sent is itself an async generator (a pipeline stage handed a stream): the asend awaitable then
+            # refers to two objects with an ag_frame, the driven generator first
+            async def stream():
+                yield 1
+
+            async def ag():
+                v = yield 0
+                await aw(i + 1)
+                yield v
+
+            async def f():
+                a = ch.reg(ag())
+                ch.keep.append(a)
+                s = stream()
+                ch.keep.append(s)
+                await a.asend(None)
+                await a.asend(s)
                 await tail()
             return ch.reg(f())
         if k == "agen_athrow":
